@@ -3,23 +3,14 @@
 package c01
 
 import (
-	"bufio"
-	"bytes"
 	"encoding/json"
 	"fmt"
-	"io"
 	"math/rand"
-	"net"
 	"net/http"
-	"net/http/httptest"
 	"net/url"
 	"path"
 	"sort"
 	"strings"
-
-	"github.com/go-openapi/runtime"
-	"github.com/go-openapi/runtime/middleware"
-	"github.com/go-openapi/runtime/middleware/untyped"
 
 	"verif/gen"
 	"verif/mon"
@@ -30,12 +21,18 @@ func init() {
 		ID:    "C01",
 		Level: "exploration",
 		Rule: "seeded API descriptions (base path in {/, '', /api, /api/, /a/b}; 1..12 templates over a 6-word alphabet with {name}, x{name}, {a}.{b}, {a}.json segments, trailing slashes, root; any method subset) x request targets " +
-			"(template instantiations with hostile values under a hostile percent-encoder, then mutated: duplicate/trailing slashes, dot segments, edits) x methods in random letter case; requests are parsed by net/http's own request parser (http.ReadRequest; thorough: also real loopback TCP). " +
-			"Oracle = segment-wise matcher on path.Clean(URL.EscapedPath()) written from the statement. non-trivial = (description hash, METHOD, cleaned target) where some template fits under some method or the target shares >= 2 leading segments with a template; distinct by that triple",
+			"(template instantiations with hostile values under a hostile percent-encoder, then mutated: duplicate/trailing slashes, dot segments, edits) x methods in random letter case; requests are parsed by net/http's own request parser (http.ReadRequest; also real loopback TCP). " +
+			"One template in 14 is x{a} beside a plain {p} (the kind of prefixed template the unchanged tree dispatches), one in 10 is declared under (nearly) all seven methods; 3 requests in 16 carry Accept: text/x-none / a text/x-none body / no Accept at all. " +
+			"3 descriptions in 10 are served through another exported constructor: RoutesHandler(Builder), APIHandler(Builder), Serve, ServeWithBuilder, and (1 in 10) a generated-server style RoutableAPI under NewRoutableContext whose parameter objects read route.Params.Get; a Builder middleware notes MatchedRouteFrom(r).PathPattern/.Params. " +
+			"Oracle = segment-wise matcher on path.Clean(URL.EscapedPath()) written from the statement; the escaped path is noted BEFORE the library gets the request (TCP: by a wrapper around the library's handler inside the server). non-trivial = (description hash, METHOD, cleaned target) where some template fits under some method or the target shares >= 2 leading segments with a template; distinct by that triple",
 		Assumptions: []string{
 			"descriptions with two templates of identical shape (after cleaning) are not generated (invalid Swagger)",
 			"composite segments ({a}.{b}, {a}.json, x{a}): a split on the encoded or on the decoded segment text is accepted; preference between a partial-literal segment and a pure placeholder is not stated and not judged",
 			"targets that net/http's parser rejects (invalid escapes, CTLs) never reach the handler and are not judged",
+			"a request that asks for or sends a media type the API does not speak (Accept: text/x-none, Content-Type: text/x-none) and fits a template may be refused with 406/415 without a handler running (class fit-refused-by-media-type-*); if a handler runs it must be the designated one; the 404/405/Allow expectations are unchanged",
+			"MatchedRouteFrom(r) seen by a Builder middleware: when present its PathPattern must be the designated template under the base path and Params.Get(name) the value the handler received; its absence is only counted (class matched-route-absent-from-context); a request URL rewritten by the library is only counted (class request-url-rewritten-by-the-library)",
+			"loopback TCP arm: the listener is opened with 5 attempts, each request is sent up to 3 times on fresh connections; a request that never reached the library's handler and got no answer is counted (tcp-undelivered, note tcp_undelivered), a listener that cannot be opened is counted (tcp-harness-listen-failed, note tcp_listen_failed): neither is ever a violation. A panic of the library under the real server is a violation (the wrapper catches it before net/http does); 'handler returned, no parsable answer' is judged as an answer without status only when all three attempts went that way",
+			"signature classes: prefixed-placeholder-segment/routed-as-parameter = every x{a} template the request meets also has a plain {p} segment, no {a}.{b} segment, and the request writes each literal as declared followed by a non-empty text (dispatched by the unchanged tree, never a known finding); .../empty-text-after-literal = the same but a request segment is just the literal; panic/colon-or-star-.../no-two-wildcards-at-one-position = a panic for a request that does not reach two '*' literals at one trie position under one method (the recorded panic needs two)",
 		},
 		MinNontrivial: 300,
 		Run:           run,
@@ -47,6 +44,8 @@ func init() {
 type Req struct {
 	Method string `json:"method"`
 	Target mon.Q  `json:"target"`
+	// Hdr selects the header variant (see rawRequest); "" = Accept: application/json and no body
+	Hdr string `json:"hdr,omitempty"`
 }
 
 // Case is one description plus the requests sent to it.
@@ -54,6 +53,8 @@ type Case struct {
 	Desc     gen.Desc `json:"desc"`
 	Requests []Req    `json:"requests"`
 	TCP      bool     `json:"tcp,omitempty"`
+	// Entry selects the exported way the handler is built (see sut.go); "" = NewContext(...).RoutesHandler(nil)
+	Entry string `json:"entry,omitempty"`
 }
 
 // ---------- reference model ----------
@@ -65,16 +66,25 @@ type segPart struct {
 
 type refTemplate struct {
 	op       *gen.Op
+	full     string      // the cleaned template under the base path
 	segs     [][]segPart // per segment of the cleaned, joined template
 	trailing bool        // the declared template ends in '/' (or is the root under a non-root base path)
 	compos   bool        // some segment starts with a placeholder and continues ({a}.{b}, {a}.json)
 	prefixed bool        // some segment has a literal before its first placeholder (x{a})
+	// input features used for signatures only: some segment BEGINS with a placeholder ({p}, {a}.json);
+	// every segment with a literal before its placeholder is exactly literal + one placeholder (x{a})
+	leadingPlaceholder bool
+	simplePrefixed     bool
 	// structAt >= 0: the template has placeholders AND its pure-literal segment structAt holds a ':' or
 	// '*' after its first byte ("items:batchGet", "a*w9"), which the trie router reads as a parameter or
 	// wildcard; structPrefix is the literal text before that byte, structStar tells which one it is
 	structAt     int
 	structPrefix string
 	structStar   bool
+	// starAt >= 0: the first pure-literal segment with a '*' after its first byte (it may come after a literal
+	// with a ':'); starPrefix is the text before the '*'
+	starAt     int
+	starPrefix string
 }
 
 func parseSeg(s string) []segPart {
@@ -109,7 +119,7 @@ func splitSegs(p string) []string {
 
 func newRefTemplate(base string, op *gen.Op) *refTemplate {
 	full := path.Clean(path.Join("/", base, op.Template))
-	rt := &refTemplate{op: op, structAt: -1}
+	rt := &refTemplate{op: op, full: full, structAt: -1, starAt: -1, simplePrefixed: true}
 	hasPlaceholder := strings.Contains(full, "{")
 	for si, s := range splitSegs(full) {
 		parts := parseSeg(s)
@@ -118,12 +128,23 @@ func newRefTemplate(base string, op *gen.Op) *refTemplate {
 				rt.structAt, rt.structPrefix, rt.structStar = si, s[:k+1], s[k+1] == '*'
 			}
 		}
+		if hasPlaceholder && rt.starAt < 0 && isPureLit(parts) && len(s) > 1 {
+			if k := strings.IndexByte(s[1:], '*'); k >= 0 && !strings.Contains(s[1:k+1], ":") {
+				rt.starAt, rt.starPrefix = si, s[:k+1]
+			}
+		}
 		if len(parts) > 1 {
 			if parts[0].name == "" {
 				rt.prefixed = true
+				if len(parts) != 2 || parts[1].name == "" {
+					rt.simplePrefixed = false
+				}
 			} else {
 				rt.compos = true
 			}
+		}
+		if parts[0].name != "" {
+			rt.leadingPlaceholder = true
 		}
 		rt.segs = append(rt.segs, parts)
 	}
@@ -232,12 +253,37 @@ func (rt *refTemplate) fit(segs []string) (assigns []map[string]string, ok bool)
 				next = append(next, m)
 			}
 		}
-		if len(next) > 64 {
-			next = next[:64]
+		cur = dedupeAssigns(next)
+		if len(cur) > 4096 {
+			cur = cur[:4096]
 		}
-		cur = next
 	}
 	return cur, true
+}
+
+// dedupeAssigns drops repeated assignments (the encoded and the decoded split usually agree), keeping order.
+func dedupeAssigns(in []map[string]string) []map[string]string {
+	if len(in) < 2 {
+		return in
+	}
+	seen := map[string]bool{}
+	out := in[:0:0]
+	for _, a := range in {
+		keys := make([]string, 0, len(a))
+		for k := range a {
+			keys = append(keys, k)
+		}
+		sort.Strings(keys)
+		var sb strings.Builder
+		for _, k := range keys {
+			fmt.Fprintf(&sb, "%q=%q;", k, a[k])
+		}
+		if !seen[sb.String()] {
+			seen[sb.String()] = true
+			out = append(out, a)
+		}
+	}
+	return out
 }
 
 // prefers reports whether a is owed precedence over b: at the first segment where they differ in
@@ -273,128 +319,6 @@ func shapeOf(parts []segPart) string {
 	return sb.String()
 }
 
-// ---------- system under test ----------
-
-type observation struct {
-	ranOp  string
-	ran    int
-	params map[string]string
-}
-
-type sut struct {
-	handler http.Handler
-	obs     *observation
-	srv     *httptest.Server
-}
-
-func build(d *gen.Desc) (*sut, error) {
-	doc, err := d.Load()
-	if err != nil {
-		return nil, err
-	}
-	s := &sut{obs: &observation{}}
-	api := untyped.NewAPI(doc)
-	for i := range d.Ops {
-		op := d.Ops[i]
-		names := gen.PlaceholderNames(op.Template)
-		api.RegisterOperation(op.Method, op.Template, runtime.OperationHandlerFunc(func(params interface{}) (interface{}, error) {
-			s.obs.ran++
-			s.obs.ranOp = op.ID
-			s.obs.params = map[string]string{}
-			if m, ok := params.(map[string]interface{}); ok {
-				for _, n := range names {
-					if v, ok := m[n]; ok {
-						s.obs.params[n] = fmt.Sprint(v)
-					}
-				}
-			}
-			return map[string]string{"op": op.ID}, nil
-		}))
-	}
-	ctx := middleware.NewContext(doc, api, nil)
-	s.handler = ctx.RoutesHandler(nil)
-	return s, nil
-}
-
-type response struct {
-	status int
-	allow  []string
-	body   string
-}
-
-func (s *sut) serve(rq Req) (resp response, parsed *http.Request, perr error, panicked interface{}, stack string) {
-	raw := rq.Method + " " + string(rq.Target) + " HTTP/1.1\r\nHost: example.com\r\nAccept: application/json\r\n\r\n"
-	req, err := http.ReadRequest(bufio.NewReader(strings.NewReader(raw)))
-	if err != nil {
-		return resp, nil, err, nil, ""
-	}
-	rec := httptest.NewRecorder()
-	*s.obs = observation{}
-	pv, st := mon.Catch(func() { s.handler.ServeHTTP(rec, req) })
-	if pv != nil {
-		return resp, req, nil, pv, st
-	}
-	resp.status = rec.Code
-	for _, a := range rec.Header().Values("Allow") {
-		for _, x := range strings.Split(a, ",") {
-			if x = strings.TrimSpace(x); x != "" {
-				resp.allow = append(resp.allow, x)
-			}
-		}
-	}
-	sort.Strings(resp.allow)
-	resp.body = rec.Body.String()
-	return resp, req, nil, nil, ""
-}
-
-// serveTCP sends the raw request line over a real loopback connection; the parsed request is
-// captured by a wrapper so that the oracle sees exactly what net/http delivered.
-func (s *sut) serveTCP(rq Req) (resp response, parsed *http.Request, perr error) {
-	var captured *http.Request
-	if s.srv == nil {
-		s.srv = httptest.NewServer(http.HandlerFunc(func(w http.ResponseWriter, r *http.Request) {
-			s.handler.ServeHTTP(w, r)
-		}))
-	}
-	*s.obs = observation{}
-	conn, err := net.Dial("tcp", s.srv.Listener.Addr().String())
-	if err != nil {
-		return resp, nil, err
-	}
-	defer conn.Close()
-	raw := rq.Method + " " + string(rq.Target) + " HTTP/1.1\r\nHost: example.com\r\nAccept: application/json\r\nConnection: close\r\n\r\n"
-	if _, err := io.WriteString(conn, raw); err != nil {
-		return resp, nil, err
-	}
-	br := bufio.NewReader(conn)
-	// HEAD-like lower-case methods: tell the response parser the real method
-	res, err := http.ReadResponse(br, &http.Request{Method: strings.ToUpper(rq.Method)})
-	if err != nil {
-		return resp, nil, err
-	}
-	b, _ := io.ReadAll(res.Body)
-	res.Body.Close()
-	resp.status = res.StatusCode
-	for _, a := range res.Header.Values("Allow") {
-		for _, x := range strings.Split(a, ",") {
-			if x = strings.TrimSpace(x); x != "" {
-				resp.allow = append(resp.allow, x)
-			}
-		}
-	}
-	sort.Strings(resp.allow)
-	resp.body = string(b)
-	// reconstruct what the server parsed with the same parser
-	captured, perr = http.ReadRequest(bufio.NewReader(strings.NewReader(raw)))
-	return resp, captured, perr
-}
-
-func (s *sut) close() {
-	if s.srv != nil {
-		s.srv.Close()
-	}
-}
-
 // ---------- judging ----------
 
 func descHash(d *gen.Desc) string {
@@ -403,7 +327,7 @@ func descHash(d *gen.Desc) string {
 }
 
 func runCase(m *mon.M, c *Case) {
-	s, err := build(&c.Desc)
+	s, err := build(&c.Desc, c.Entry)
 	if err != nil {
 		m.Class("desc-rejected")
 		return
@@ -414,46 +338,75 @@ func runCase(m *mon.M, c *Case) {
 		refs = append(refs, newRefTemplate(c.Desc.BasePath, &c.Desc.Ops[i]))
 	}
 	dh := descHash(&c.Desc)
+	if c.TCP {
+		if err := s.startTCP(); err != nil {
+			// a fact about the machine, not about the library: nothing is judged
+			harnessNote("no loopback listener after 5 attempts: %v", err)
+			m.Class("tcp-harness-listen-failed")
+			m.Note("tcp_listen_failed", 1)
+			return
+		}
+	}
 	for _, rq := range c.Requests {
-		one := &Case{Desc: c.Desc, Requests: []Req{rq}, TCP: c.TCP}
+		if !knownHdr(rq.Hdr) {
+			m.Violate("bad-replay-case", "unknown header variant "+rq.Hdr, nil)
+			continue
+		}
+		one := &Case{Desc: c.Desc, Requests: []Req{rq}, TCP: c.TCP, Entry: c.Entry}
 		var resp response
-		var req *http.Request
+		var esc string // URL.EscapedPath() of the request as net/http delivered it, noted before the library ran
 		if c.TCP {
-			var perr error
-			resp, req, perr = s.serveTCP(rq)
-			if perr != nil || req == nil {
-				m.Class("tcp-unparsable")
-				continue
+			out := s.serveTCP(rq)
+			if out.attempts > 1 {
+				m.Class("tcp-retried")
 			}
-			if resp.status == 400 && s.obs.ran == 0 && strings.Contains(resp.body, "400 Bad Request") {
-				m.Class("tcp-400")
+			switch {
+			case out.tr != nil && out.tr.panicVal != nil:
+				m.Eval(1)
+				m.Violate("panic/"+panicFeature(refs, splitSegs(path.Clean(out.tr.esc))), fmt.Sprintf("%s %q panicked (TCP): %v\n%s", rq.Method, rq.Target, out.tr.panicVal, out.tr.stack), one)
 				continue
-			}
-			if string(rq.Target) == "*" {
-				m.Class("tcp-asterisk-form-answered-by-net/http-itself") // it never reaches a handler
+			case out.tr == nil && !out.answered:
+				// no answer and the library never saw the request, three times over: the machine (or a request
+				// line that net/http drops without an answer), not the library
+				harnessNote("undelivered after %d attempts: %s %q: %v", out.attempts, rq.Method, rq.Target, out.lastError)
+				m.Class("tcp-undelivered")
+				m.Note("tcp_undelivered", 1)
 				continue
+			case out.tr == nil:
+				// answered by net/http itself (400 for a malformed request line, "OPTIONS *"): it never reaches a handler
+				if string(rq.Target) == "*" {
+					m.Class("tcp-asterisk-form-answered-by-net/http-itself")
+				} else {
+					m.Class(fmt.Sprintf("tcp-answered-by-net/http-itself-%d", out.resp.status))
+				}
+				continue
+			case !out.answered:
+				// the library's handler got the request and returned, three times over, and no parsable answer came
+				// back: judged as "no status" (the statement demands an answer)
+				m.Class("tcp-handler-returned-without-answer")
+				resp = response{}
+			default:
+				resp = out.resp
 			}
+			esc = out.tr.esc
 		} else {
-			var perr error
-			var pv interface{}
-			var st string
-			resp, req, perr, pv, st = s.serve(rq)
+			r, dl, perr, pv, st := s.serve(rq)
 			if perr != nil {
 				m.Class("unparsable-target")
 				continue
 			}
+			if dl.rewritten {
+				m.Class("request-url-rewritten-by-the-library") // not promised either way; the oracle uses the snapshot
+			}
 			if pv != nil {
 				m.Eval(1)
-				pfeat := "simple"
-				if req != nil {
-					pfeat = inputFeature(refs, splitSegs(path.Clean(req.URL.EscapedPath())))
-				}
-				m.Violate("panic/"+pfeat, fmt.Sprintf("%s %q panicked: %v\n%s", rq.Method, rq.Target, pv, st), one)
+				m.Violate("panic/"+panicFeature(refs, splitSegs(path.Clean(dl.esc))), fmt.Sprintf("%s %q panicked: %v\n%s", rq.Method, rq.Target, pv, st), one)
 				continue
 			}
+			resp, esc = r, dl.esc
 		}
 		m.Eval(1)
-		cleaned := path.Clean(req.URL.EscapedPath())
+		cleaned := path.Clean(esc)
 		segs := splitSegs(cleaned)
 		method := strings.ToUpper(rq.Method)
 
@@ -465,7 +418,7 @@ func runCase(m *mon.M, c *Case) {
 		fits := map[string][]fitT{}
 		anyFit := false
 		// an asterisk-form target ("OPTIONS *") names no path at all: no template fits it
-		rooted := strings.HasPrefix(req.URL.EscapedPath(), "/")
+		rooted := strings.HasPrefix(esc, "/")
 		for _, rt := range refs {
 			if as, ok := rt.fit(segs); ok && rooted {
 				mm := strings.ToUpper(rt.op.Method)
@@ -507,7 +460,7 @@ func runCase(m *mon.M, c *Case) {
 			// ... and no other composite template gets in the way (one whose literal segments agree with the
 			// request but which the request does not instantiate is routed to all the same: the known defect)
 			for _, rt := range refs {
-				if !rt.compos || fitting[rt] || len(rt.segs) != len(segs) {
+				if !(rt.compos || (rt.prefixed && !rt.simplePrefixed)) || fitting[rt] || len(rt.segs) != len(segs) {
 					continue
 				}
 				loose := true
@@ -519,6 +472,9 @@ func runCase(m *mon.M, c *Case) {
 				if loose {
 					unambiguous = false
 				}
+			}
+			if unambiguous && prefixedTroubleInTheWay(refs, segs) {
+				unambiguous = false // (one of the recorded defects of x{a} segments may bite instead)
 			}
 			if unambiguous {
 				feat = "composite-segment/unambiguous-split"
@@ -537,6 +493,12 @@ func runCase(m *mon.M, c *Case) {
 				if !beaten {
 					best = append(best, f)
 				}
+			}
+			if s.obs.ran == 0 && rq.Hdr != hdrPlain && (resp.status == http.StatusNotAcceptable || resp.status == http.StatusUnsupportedMediaType) {
+				// the request asks for / sends a media type the API does not speak: that the operation refuses it
+				// (406, 415) is the business of other properties; the route was found
+				m.Class(fmt.Sprintf("fit-refused-by-media-type-%d", resp.status))
+				continue
 			}
 			if s.obs.ran == 0 {
 				m.Violate("no-handler-ran/"+feat,
@@ -576,7 +538,43 @@ func runCase(m *mon.M, c *Case) {
 				m.Violate("wrong-status-after-handler/"+feat, fmt.Sprintf("%s %q: handler ran but status %d", rq.Method, rq.Target, resp.status), one)
 				continue
 			}
+			if s.builder {
+				// what a middleware installed through the Builder finds in the request's context: the matched route
+				// of the designated operation and the same values, by name (read with RouteParams.Get)
+				switch {
+				case s.obs.mrCalls != 1:
+					m.Violate("builder-middleware-not-run-once/"+feat, fmt.Sprintf("%s %q: the handler made by the Builder ran %d times for one dispatched request", rq.Method, rq.Target, s.obs.mrCalls), one)
+					continue
+				case s.obs.mrNil:
+					m.Class("matched-route-absent-from-context") // not promised by the statement
+				default:
+					if s.obs.mrPattern != chosen.rt.full {
+						m.Violate("wrong-matched-route/"+feat, fmt.Sprintf("%s %q (cleaned %q): %s ran (template %q) but MatchedRouteFrom(r).PathPattern is %q", rq.Method, rq.Target, cleaned, s.obs.ranOp, chosen.rt.full, s.obs.mrPattern), one)
+						continue
+					}
+					bad := ""
+					for n, v := range s.obs.params {
+						if got := s.obs.mrParams.Get(n); got != v {
+							bad = fmt.Sprintf("MatchedRouteFrom(r).Params.Get(%q) = %q, the handler received %q", n, got, v)
+						}
+					}
+					if bad != "" {
+						m.Violate("wrong-matched-route-params/"+feat, fmt.Sprintf("%s %q (cleaned %q): %s", rq.Method, rq.Target, cleaned, bad), one)
+						continue
+					}
+					m.Class("matched-route-agrees")
+				}
+			}
 			m.Class("dispatched")
+			if c.Entry != entryRoutes {
+				m.Class("dispatched-entry-" + c.Entry)
+			}
+			if feat == featPrefixedRouted {
+				m.Class("dispatched-prefixed")
+			}
+			if rq.Hdr != hdrPlain {
+				m.Class("dispatched-hdr-" + rq.Hdr)
+			}
 			if chosen.rt.compos {
 				m.Class("dispatched-composite")
 			}
@@ -604,12 +602,21 @@ func runCase(m *mon.M, c *Case) {
 					continue
 				}
 				m.Class("405")
+				if len(allow) > 3 {
+					m.Class("405-allow-of-4-or-more")
+				}
+				if rq.Hdr != hdrPlain {
+					m.Class("405-hdr-" + rq.Hdr)
+				}
 			} else {
 				if resp.status != http.StatusNotFound {
 					m.Violate("wrong-status-expected-404/"+feat, fmt.Sprintf("%s %q (cleaned %q): no template fits under any method, status %d body %.120q", rq.Method, rq.Target, cleaned, resp.status, resp.body), one)
 					continue
 				}
 				m.Class("404")
+				if rq.Hdr != hdrPlain {
+					m.Class("404-hdr-" + rq.Hdr)
+				}
 			}
 		}
 	}
@@ -627,49 +634,200 @@ func runCase(m *mon.M, c *Case) {
 // feature of the input only (used in signatures), never part of a verdict.
 func inputFeature(refs []*refTemplate, segs []string) string {
 	for _, rt := range refs {
-		if rt.structAt >= 0 && len(segs) > rt.structAt && (rt.structStar || len(rt.segs) == len(segs)) {
-			// the request gets as far as the literal with the ':' or '*' and shares the text before it
-			ok := true
-			for i := 0; i < rt.structAt; i++ {
-				if isPureLit(rt.segs[i]) && rt.segs[i][0].lit != segs[i] {
-					ok = false
-				}
-			}
-			if ok && (strings.HasPrefix(segs[rt.structAt], rt.structPrefix) || strings.HasPrefix(decodedOr(segs[rt.structAt]), rt.structPrefix)) {
-				return "colon-or-star-in-literal-of-parameterised-template"
-			}
+		if reachesStructLiteral(rt, segs) {
+			return featStruct
 		}
 	}
 	feat := "simple"
+	sawPrefixed, prefixedDispatchable, sawEmptyText, sawCompos := false, true, false, false
 	for _, rt := range refs {
-		if len(rt.segs) != len(segs) {
-			continue
-		}
-		ok := true
-		for i, parts := range rt.segs {
-			if isPureLit(parts) && parts[0].lit != segs[i] {
-				ok = false
-				break
-			}
-			// a segment "x{a}" is routed as the literal text it is written as: it only gets in the way
-			// of requests whose segment starts with that literal (a template that also has a composite
-			// segment captures anything there, so it stays in the loose class)
-			if !rt.compos && len(parts) > 1 && parts[0].name == "" && !strings.HasPrefix(segs[i], parts[0].lit) && !strings.HasPrefix(decodedOr(segs[i]), parts[0].lit) {
-				ok = false
-				break
-			}
-		}
-		if !ok {
+		if !looseFit(rt, segs) {
 			continue
 		}
 		switch {
 		case rt.prefixed:
-			return "prefixed-placeholder-segment"
+			sawPrefixed = true
+			kind, composite := classifyPrefixed(rt, segs)
+			switch kind {
+			case prefixedNo:
+				prefixedDispatchable = false
+			case prefixedEmptyText:
+				sawEmptyText = true
+			}
+			if composite {
+				sawCompos = true
+			}
 		case rt.compos:
+			sawCompos = true
 			feat = "composite-segment"
 		}
 	}
+	if sawPrefixed {
+		// The recorded defect of x{a} segments: the template becomes a STATIC record of the trie router unless
+		// some segment of it begins with a placeholder. A template that has such a segment is dispatched by the
+		// unchanged tree: requests that only meet templates of that kind (and give every x{a} segment a
+		// non-empty text after the literal, written as the literal is) get a class of their own, which no
+		// known finding covers.
+		// When the request's segment is just the literal of such an x{a} (nothing is left for {a}, so the
+		// template does not fit), the trie router captures an EMPTY parameter text in the middle of the path and
+		// routes the request all the same: a defect of its own, with a signature of its own.
+		// When such a template also has a segment with several placeholders (x-{a}-{b}, {a}.json) and nothing
+		// else is in the way, what can go wrong is the recorded defect of composite segments, not this one.
+		// (whatever else is in the way: every failure kind of the composite class is recorded)
+		switch {
+		case sawCompos:
+			return "composite-segment"
+		case !prefixedDispatchable:
+			return featPrefixed
+		case sawEmptyText:
+			return featPrefixedEmpty
+		default:
+			return featPrefixedRouted
+		}
+	}
 	return feat
+}
+
+const (
+	featStruct         = "colon-or-star-in-literal-of-parameterised-template"
+	featPrefixed       = "prefixed-placeholder-segment"
+	featPrefixedRouted = "prefixed-placeholder-segment/routed-as-parameter"
+	featPrefixedEmpty  = "prefixed-placeholder-segment/empty-text-after-literal"
+	// a panic for a request that meets no two ':'/'*' literals at one position (the recorded panic needs two)
+	featStructSingle = "colon-or-star-in-literal-of-parameterised-template/no-two-wildcards-at-one-position"
+)
+
+// looseFit: the template's pure-literal segments equal the request's (the other segments are not looked at,
+// except as said below).
+func looseFit(rt *refTemplate, segs []string) bool {
+	if len(rt.segs) != len(segs) {
+		return false
+	}
+	for i, parts := range rt.segs {
+		if isPureLit(parts) && parts[0].lit != segs[i] {
+			return false
+		}
+		// a segment "x{a}" is routed as the literal text it is written as: it only gets in the way
+		// of requests whose segment starts with that literal (a template that also has a composite
+		// segment captures anything there, so it stays in the loose class)
+		if !rt.compos && len(parts) > 1 && parts[0].name == "" && !strings.HasPrefix(segs[i], parts[0].lit) && !strings.HasPrefix(decodedOr(segs[i]), parts[0].lit) {
+			return false
+		}
+	}
+	// the request ends in exactly the literal of a final x{a}: nothing instantiates {a}, the template does not
+	// fit and there is no later segment it could be mistaken for
+	if last := len(rt.segs) - 1; last >= 0 {
+		if parts := rt.segs[last]; len(parts) > 1 && parts[0].name == "" && segs[last] == parts[0].lit {
+			return false
+		}
+	}
+	return true
+}
+
+// prefixedTroubleInTheWay: some x{a} template that the request meets is a static record, or gets nothing
+// after its literal, or has its literal written otherwise than declared (input feature).
+func prefixedTroubleInTheWay(refs []*refTemplate, segs []string) bool {
+	for _, rt := range refs {
+		if rt.prefixed && looseFit(rt, segs) {
+			if k, _ := classifyPrefixed(rt, segs); k != prefixedYes {
+				return true
+			}
+		}
+	}
+	return false
+}
+
+// reachesStructLiteral: the request gets as far as the template's literal with the ':' or '*' and shares the
+// text before that byte.
+func reachesStructLiteral(rt *refTemplate, segs []string) bool {
+	if rt.structAt < 0 || len(segs) <= rt.structAt {
+		return false
+	}
+	// (a '*' takes the rest of the path: the request need not have the template's length, provided it is long
+	// enough to get to the literal with the '*')
+	if !(rt.structStar || len(rt.segs) == len(segs) || (rt.starAt >= 0 && len(segs) > rt.starAt)) {
+		return false
+	}
+	for i := 0; i < rt.structAt; i++ {
+		if isPureLit(rt.segs[i]) && rt.segs[i][0].lit != segs[i] {
+			return false
+		}
+	}
+	return strings.HasPrefix(segs[rt.structAt], rt.structPrefix) || strings.HasPrefix(decodedOr(segs[rt.structAt]), rt.structPrefix)
+}
+
+// classifyPrefixed: an input feature (never part of a verdict) of a template with x{a} segments that the
+// request fits loosely. prefixedNo: no segment of the template begins with a placeholder (the template is a
+// static record: the recorded defect), or the request does not write some x literal as it is declared.
+// prefixedYes / prefixedEmptyText: the request puts a non-empty text after each such literal / nothing at all
+// after one of them. composite: the template also has a segment with several placeholders or a placeholder
+// followed by a literal ({a}.{b}, {a}.json, x-{a}-{b}).
+func classifyPrefixed(rt *refTemplate, segs []string) (kind int, composite bool) {
+	if !rt.leadingPlaceholder || len(rt.segs) != len(segs) {
+		return prefixedNo, false
+	}
+	kind = prefixedYes
+	for i, parts := range rt.segs {
+		if len(parts) > 1 && parts[0].name == "" {
+			if !strings.HasPrefix(segs[i], parts[0].lit) {
+				return prefixedNo, false
+			}
+			if len(segs[i]) == len(parts[0].lit) {
+				kind = prefixedEmptyText // the segment is the literal and nothing else
+			}
+		}
+	}
+	return kind, rt.compos || !rt.simplePrefixed
+}
+
+const (
+	prefixedNo = iota
+	prefixedYes
+	prefixedEmptyText
+)
+
+// twoWildcardsAtOnePosition: the recorded panic of the ':'/'*' class needs two templates of ONE method whose
+// '*' literals sit at the same place (same position, same text before the '*', same segments before it up to
+// placeholder names) and which the request reaches. Input feature only.
+func twoWildcardsAtOnePosition(refs []*refTemplate, segs []string) bool {
+	seen := map[string]bool{}
+	for _, rt := range refs {
+		if rt.starAt < 0 || !reachesStructLiteral(rt, segs) {
+			continue
+		}
+		var sb strings.Builder
+		sb.WriteString(strings.ToUpper(rt.op.Method))
+		for i := 0; i < rt.starAt; i++ {
+			sb.WriteByte('/')
+			switch parts := rt.segs[i]; {
+			case isPureLit(parts):
+				lit := parts[0].lit
+				if k := strings.IndexByte(lit[1:], ':'); len(lit) > 1 && k >= 0 {
+					lit = lit[:k+1] + "{}" // the rest of the literal is routed as a parameter
+				}
+				sb.WriteString(lit)
+			case parts[0].name != "":
+				sb.WriteString("{}") // routed as one parameter whatever follows the placeholder
+			default:
+				sb.WriteString(parts[0].lit + "{}")
+			}
+		}
+		sb.WriteString("/" + rt.starPrefix + "*")
+		if seen[sb.String()] {
+			return true
+		}
+		seen[sb.String()] = true
+	}
+	return false
+}
+
+// panicFeature is the input feature under which a panic is reported.
+func panicFeature(refs []*refTemplate, segs []string) string {
+	f := inputFeature(refs, segs)
+	if f == featStruct && !twoWildcardsAtOnePosition(refs, segs) {
+		return featStructSingle
+	}
+	return f
 }
 
 // occursOnce: lit occurs in s at exactly one position (overlapping occurrences count: "---" holds "--" twice).
@@ -726,6 +884,9 @@ func genTemplate(r *rand.Rand, id int) string {
 	if r.Intn(25) == 0 {
 		return "/"
 	}
+	if r.Intn(14) == 0 {
+		return genPrefixedTemplate(r, id)
+	}
 	nseg := 1 + r.Intn(4)
 	var sb strings.Builder
 	np := 0
@@ -777,6 +938,33 @@ func genTemplate(r *rand.Rand, id int) string {
 	return sb.String()
 }
 
+// genPrefixedTemplate: 2..4 segments, one of them x{a} (literal, then one placeholder), at least one other a
+// plain {p}; the rest words or placeholders. (Templates of this kind are dispatched by the unchanged tree; the
+// ones whose x{a} has no plain placeholder beside it come from genTemplate and are the recorded defect.)
+func genPrefixedTemplate(r *rand.Rand, id int) string {
+	nseg := 2 + r.Intn(3)
+	pre, plain := r.Intn(nseg), r.Intn(nseg-1)
+	if plain >= pre {
+		plain++
+	}
+	var sb strings.Builder
+	np := 0
+	for s := 0; s < nseg; s++ {
+		sb.WriteByte('/')
+		switch {
+		case s == pre:
+			np++
+			sb.WriteString(gen.Pick(r, gen.Words) + fmt.Sprintf("{p%d_%d}", id, np))
+		case s == plain || r.Intn(3) == 0:
+			np++
+			sb.WriteString(fmt.Sprintf("{p%d_%d}", id, np))
+		default:
+			sb.WriteString(gen.Pick(r, gen.Words))
+		}
+	}
+	return sb.String()
+}
+
 func shapeKey(tpl string) string {
 	var sb strings.Builder
 	for _, s := range splitSegs(path.Clean("/" + tpl)) {
@@ -798,9 +986,19 @@ func genDesc(r *rand.Rand) gen.Desc {
 		}
 		seen[k] = true
 		nm := 1 + r.Intn(3)
+		all := r.Intn(10) == 0 // the template is declared under every method: Allow lists of up to seven
+		if all {
+			nm = len(methods)
+		}
 		used := map[string]bool{}
 		for j := 0; j < nm; j++ {
 			meth := methods[r.Intn(len(methods))]
+			if all {
+				meth = methods[j]
+				if r.Intn(8) == 0 {
+					continue // ... or under all but one or two
+				}
+			}
 			if used[meth] {
 				continue
 			}
@@ -964,9 +1162,36 @@ func genRequests(r *rand.Rand, d *gen.Desc, n int) []Req {
 		case k == 5:
 			meth, t = "OPTIONS", "*" // asterisk-form
 		}
-		out = append(out, Req{Method: randCase(r, meth), Target: mon.Q(t)})
+		hdr := hdrPlain
+		switch r.Intn(16) {
+		case 0:
+			hdr = hdrAcceptNone
+		case 1:
+			hdr = hdrCtypeNone
+		case 2:
+			hdr = hdrNoAccept
+		}
+		out = append(out, Req{Method: randCase(r, meth), Target: mon.Q(t), Hdr: hdr})
 	}
 	return out
+}
+
+// genEntry: 7 descriptions in 10 through RoutesHandler(nil) as before, 1 in 10 the way a generated server is
+// built (a RoutableAPI handed to NewRoutableContext), the rest through the other exported constructors.
+func genEntry(r *rand.Rand) string {
+	switch r.Intn(20) {
+	case 0, 1:
+		return entryRoutable
+	case 2:
+		return entryRoutesBuilder
+	case 3:
+		return entryAPI
+	case 4:
+		return entryServe
+	case 5:
+		return entryServeBuilder
+	}
+	return entryRoutes
 }
 
 func run(m *mon.M) {
@@ -977,7 +1202,7 @@ func run(m *mon.M) {
 		if len(d.Ops) == 0 {
 			continue
 		}
-		c := &Case{Desc: d, Requests: genRequests(r, &d, 60)}
+		c := &Case{Desc: d, Requests: genRequests(r, &d, 60), Entry: genEntry(r)}
 		m.Begin(c)
 		runCase(m, c)
 	}
@@ -988,7 +1213,7 @@ func run(m *mon.M) {
 		if len(d.Ops) == 0 {
 			continue
 		}
-		c := &Case{Desc: d, Requests: genRequests(r, &d, 40), TCP: true}
+		c := &Case{Desc: d, Requests: genRequests(r, &d, 40), TCP: true, Entry: genEntry(r)}
 		m.Begin(c)
 		runCase(m, c)
 		m.Class("tcp-descriptions")
@@ -1003,5 +1228,3 @@ func replay(m *mon.M, raw json.RawMessage) {
 	}
 	runCase(m, &c)
 }
-
-var _ = bytes.NewReader
